@@ -215,8 +215,8 @@ Definition verdict_sound (c : Cfg) (rq0 : gmap Z Req) (req active : Z) (e : Ev) 
       rq = req /\ act = active /\
       exists r, rq0 !! id = Some r /\ r_mal r = mal /\
         yes = count_choice YES (r_votes r) /\ no = count_choice NO (r_votes r) /\
-        ((st = GUILTY /\ guilty_f c yes req = true) \/
-         (st = INNOCENT /\ guilty_f c yes req = false /\ innocent_f c no req = true))
+        ((st = GUILTY /\ guilty_x c yes req = true) \/
+         (st = INNOCENT /\ guilty_x c yes req = false /\ innocent_x c no req = true))
   | EvVote _ _ _ => False
   | _ => True
   end.
@@ -230,7 +230,7 @@ Proof.
   intros c q active req rq0 [[s dec] ev] id Hsub Hev. simpl in Hsub, Hev. unfold process_req.
   destruct (reqs s !! id) as [r|] eqn:E; [|simpl; auto].
   assert (Hr : rq0 !! id = Some r) by (eapply lookup_weaken; eauto).
-  destruct (guilty_f c (count_choice YES (r_votes r)) req) eqn:G.
+  destruct (guilty_x c (count_choice YES (r_votes r)) req) eqn:G.
   - destruct (negb (inb (r_mal r) q.*1)).
     + simpl. repeat split; auto. apply Forall_app. split; auto. repeat constructor.
     + destruct (0 <=? default 0 (stake (set_susp s _) !! r_mal r) - penalty c _) eqn:P; simpl.
@@ -242,7 +242,7 @@ Proof.
         -- etrans; [apply delete_subseteq|]. exact Hsub.
         -- rewrite !Forall_app. repeat split; auto; repeat constructor; auto.
            exists r. repeat split; auto.
-  - destruct (innocent_f c (count_choice NO (r_votes r)) req) eqn:I; simpl; [|auto].
+  - destruct (innocent_x c (count_choice NO (r_votes r)) req) eqn:I; simpl; [|auto].
     repeat split; auto.
     + etrans; [apply delete_subseteq|]. exact Hsub.
     + apply Forall_app. split; auto. repeat constructor; auto. exists r. repeat split; auto.
@@ -269,7 +269,7 @@ Qed.
 
 Lemma end_block_sound : forall c s q ord s' ev, end_block c s q ord = (s', ev) ->
   reqs s' ⊆ reqs s /\
-  Forall (verdict_sound c (reqs s) (required c (elect c s q).2) (elect c s q).2) ev /\
+  Forall (verdict_sound c (reqs s) (required_x c (elect c s q).2) (elect c s q).2) ev /\
   (1 < height s -> vstat s' = (elect c s q).1).
 Proof.
   intros c s q ord s' ev H. unfold end_block in H.
@@ -278,11 +278,13 @@ Proof.
   destruct (elect c s q) as [vs active] eqn:El.
   destruct (active =? 0).
   { inversion H; subst. simpl. repeat split; auto. }
+  destruct ((voteDec c <=? 0) || (allegDec c <=? 0)).
+  { inversion H; subst. simpl. repeat split; auto. }
   set (s2 := clean (set_vstat s vs)) in *.
-  destruct (fold_left (process_req c q active (required c active)) (range_order (tracker s2) ord) (s2, [], []))
+  destruct (fold_left (process_req c q active (required_x c active)) (range_order (tracker s2) ord) (s2, [], []))
     as [[s3 dec] ev3] eqn:F.
   inversion H; subst. simpl.
-  pose proof (process_fold_sound c q active (required c active) (reqs s2) (range_order (tracker s2) ord) (s2, [], [])
+  pose proof (process_fold_sound c q active (required_x c active) (reqs s2) (range_order (tracker s2) ord) (s2, [], [])
                (reflexivity _) (Forall_nil_2 _)) as (A & B & C).
   rewrite F in A, B, C. simpl in A, B, C.
   assert (Hs2 : reqs s2 ⊆ reqs s) by (subst s2; apply (clean_reqs_sub (set_vstat s vs))).
@@ -377,9 +379,9 @@ Qed.
 Definition verdict_certified (c : Cfg) (log : list Ev) (e : Ev) : Prop :=
   match e with
   | EvVerdict id mal st yes no req active =>
-      req = required c active /\
-      ((st = GUILTY /\ guilty_f c yes req = true) \/
-       (st = INNOCENT /\ guilty_f c yes req = false /\ innocent_f c no req = true)) /\
+      req = required_x c active /\
+      ((st = GUILTY /\ guilty_x c yes req = true) \/
+       (st = INNOCENT /\ guilty_x c yes req = false /\ innocent_x c no req = true)) /\
       exists ys ns : list Z,
         NoDup ys /\ NoDup ns /\ Z.of_nat (length ys) = yes /\ Z.of_nat (length ns) = no /\
         (forall a, a ∈ ys -> EvVote id a YES ∈ log) /\ (forall a, a ∈ ns -> EvVote id a NO ∈ log)
@@ -472,28 +474,24 @@ Proof.
       exists (o :: ops1), ops2, sx, (e1 ++ lx). simpl. rewrite E1, R. auto.
 Qed.
 
-(* ---------- float64 versus exact rationals ---------- *)
-Lemma tally_exact_outside_trigger : forall c active yes no,
-  float_tally_mismatch c active yes no = false ->
-  required c active = required_x c active /\
-  (guilty_f c yes (required c active) = true -> guilty_x c yes (required_x c active) = true) /\
-  (guilty_f c yes (required c active) = false -> innocent_f c no (required c active) = true ->
-   innocent_x c no (required_x c active) = true /\ guilty_x c yes (required_x c active) = false).
+(* ---------- the shares, in integers ---------- *)
+Lemma tally_exact : forall c active yes no req, 0 < voteDec c ->
+  (required_x c active - 1) * voteDec c < active * votePct c <= required_x c active * voteDec c /\
+  (guilty_x c yes req = true <-> yes * allegDec c > allegPct c * req) /\
+  (innocent_x c no req = true <-> no * allegDec c > (allegDec c - allegPct c) * req).
 Proof.
-  intros c active yes no H. unfold float_tally_mismatch in H. apply negb_false_iff in H.
-  apply andb_true_iff in H. destruct H as [H1 H2]. apply Z.eqb_eq in H1, H2.
-  split; [exact H1|]. unfold verdict_f, verdict_x in H2. rewrite <- H1.
-  rewrite <- H1 in H2. split.
-  - intros G. rewrite G in H2. destruct (guilty_x c yes (required c active)); [reflexivity|].
-    destruct (innocent_x c no (required c active)); discriminate.
-  - intros G I. rewrite G, I in H2. destruct (guilty_x c yes (required c active)); [discriminate|].
-    destruct (innocent_x c no (required c active)); [auto|discriminate].
+  intros c active yes no req Hd. split; [|split].
+  - unfold required_x.
+    pose proof (Z.div_mod (- (active * votePct c)) (voteDec c)).
+    pose proof (Z.mod_pos_bound (- (active * votePct c)) (voteDec c)). nia.
+  - unfold guilty_x. rewrite Z.gtb_lt. lia.
+  - unfold innocent_x. rewrite Z.gtb_lt. lia.
 Qed.
 
 (* ---------- guilty: frozen record, exact penalty, bounty ---------- *)
 Lemma process_req_guilty : forall c q active req s dec ev id r s' dec' ev',
   process_req c q active req (s, dec, ev) id = (s', dec', ev') ->
-  reqs s !! id = Some r -> guilty_f c (count_choice YES (r_votes r)) req = true ->
+  reqs s !! id = Some r -> guilty_x c (count_choice YES (r_votes r)) req = true ->
   susp s' !! r_mal r = Some {| l_status := BYZ; l_fh := height s; l_fat := now s; l_rh := 0; l_rat := None |} /\
   is_frozen s' (r_mal r) = true /\
   (forall b, b <> r_mal r -> stake s' !! b = stake s !! b) /\
@@ -551,10 +549,10 @@ Proof.
   { unfold byz_frozen_m in *. simpl. destruct (decide (r_mal r = a)) as [->|Hne].
     - rewrite lookup_insert. reflexivity.
     - rewrite lookup_insert_ne by congruence. exact H. }
-  destruct (guilty_f c (count_choice YES (r_votes r)) req).
+  destruct (guilty_x c (count_choice YES (r_votes r)) req).
   - destruct (negb (inb (r_mal r) q.*1)); [exact K|].
     destruct (0 <=? _ - _); simpl; exact K.
-  - destruct (innocent_f c (count_choice NO (r_votes r)) req); simpl; exact H.
+  - destruct (innocent_x c (count_choice NO (r_votes r)) req); simpl; exact H.
 Qed.
 
 Lemma process_fold_byz : forall c q active req ids acc a,
@@ -607,8 +605,9 @@ Proof.
   - inversion H; subst. exact B.
   - unfold end_block in H. destruct (height s <=? 1); [inversion H; subst; exact B|].
     destruct (elect c s q) as [vs active]. destruct (active =? 0); [inversion H; subst; exact B|].
+    destruct ((voteDec c <=? 0) || (allegDec c <=? 0)); [inversion H; subst; exact B|].
     set (s2 := clean (set_vstat s vs)) in *.
-    pose proof (process_fold_byz c q active (required c active) (range_order (tracker s2) ord) (s2, [], []) a B) as F.
+    pose proof (process_fold_byz c q active (required_x c active) (range_order (tracker s2) ord) (s2, [], []) a B) as F.
     destruct (fold_left _ _ _) as [[s3 dec] ev3]. inversion H; subst. exact F.
 Qed.
 
